@@ -20,7 +20,7 @@ import subprocess
 import sys
 import time
 
-V = "/verif"
+V = os.environ.get("VERIF_ROOT", "/verif")
 REPO = "/repo"
 BUILD = f"{V}/build"
 FORBIDDEN = re.compile(
